@@ -121,7 +121,7 @@ func init() {
 		has := And(SLe(lp, ls), Eq(StrSub(s, C64(0), lp), p))
 		return VStr{Ite(has, StrSub(s, lp, ls), s)}, pc
 	})
-	regExtern("strings.Split", "Split(s,sep), sep non-empty: at least one part; parts[0] is a prefix of s; a single part equals s", func(ex *Exec, fr *Frame, st *State, pc *Term, fn *ssa.Function, args []Value, pos token.Pos) (Value, *Term) {
+	regExtern("strings.Split", "Split(s,sep), sep non-empty: at least one part; parts[0] is a prefix of s; a single part equals s. Split(s, \"\"): one part per UTF-8 sequence (between len/4 and len parts of 1..4 bytes)", func(ex *Exec, fr *Frame, st *State, pc *Term, fn *ssa.Function, args []Value, pos token.Pos) (Value, *Term) {
 		s := args[0].(VStr).T
 		sep := args[1].(VStr).T
 		strT := types.Typ[types.String]
@@ -145,14 +145,16 @@ func init() {
 			_ = row
 			st.setComp(name, Store(c, sl.Arr, Store(rest, C64(0), first)))
 		} else {
-			// sep == "" (explode into characters) or unknown: opaque content, length known for ""
+			// sep == "" (explode into UTF-8 sequences) or unknown: opaque content. The number of parts is the
+			// number of characters, not of bytes: between ceil(len/4) and len (equal to len only for ASCII);
+			// a part is 1 to 4 bytes long
 			if ok && lit == "" {
-				ex.assume(pc, Eq(n, StrLen(s)))
+				ex.assume(pc, And(SLe(n, StrLen(s)), SLe(StrLen(s), Mul(n, C64(4)))))
 				name := eCompName(strT, 0)
 				c := st.comp(name, ArrSort(BV64, ArrSort(BV64, StrSort)))
 				rest := Fresh("split.chars", ArrSort(BV64, StrSort))
 				j := Bound("j", BV64)
-				ex.assume(pc, Forall([]*Term{j}, Implies(And(SLe(C64(0), j), SLt(j, n)), Eq(App("gostr.len", BV64, Select(rest, j)), C64(1))), []*Term{Select(rest, j)}))
+				ex.assume(pc, Forall([]*Term{j}, Implies(And(SLe(C64(0), j), SLt(j, n)), And(SLe(C64(1), App("gostr.len", BV64, Select(rest, j))), SLe(App("gostr.len", BV64, Select(rest, j)), C64(4)))), []*Term{Select(rest, j)}))
 				st.setComp(name, Store(c, sl.Arr, rest))
 			}
 		}
